@@ -1,6 +1,7 @@
 import SasLexer.Prog
 import SasLexer.Chars
 import SasLexer.Numeric
+import SasLexer.Lex.Flags
 /-! # Small `Prog` helpers used by the hand-modelled control logic -/
 namespace SasLexer
 open Prog (perform)
